@@ -229,7 +229,7 @@ def run(ctx):
     near = {}
     # (a) luminance + ratio vs black/white, all 2^24 colours
     n = 0
-    for cnt, viol, nr in ctx.pmap(chunk_lum_and_bw, range(256)):
+    for cnt, viol, nr in ctx.pmap_chunks("mc.props.c05", "chunk_lum_and_bw", list(range(256))):
         n += cnt
         ctx.add_violations(viol)
         _merge_near(near, nr)
